@@ -1,6 +1,7 @@
 // C17 - port metadata is read back exactly as written.
 #include "common/vf.hpp"
 #include <rtosc/ports.h>
+#include <rtosc/port-sugar.h>
 #include <memory>
 
 struct Entry {
@@ -16,7 +17,7 @@ struct Case {
   template <class A> void io(A &a) { a(entries)(probes); if (a.more()) a(entries2); if (a.more()) a(bare); }   // optional trailing fields
   std::string describe() const {
     std::string d = "block=\"";
-    for (size_t i = 0; i < entries.size(); i++) { auto &e = entries[i]; d += ":" + vf::esc(e.key) + "\\0"; if (e.has_value) d += "=" + vf::esc(e.value) + "\\0"; else if (i < bare.size() && !bare[i].empty()) d += vf::esc(bare[i]) + "\\0"; }
+    for (size_t i = 0; i < entries.size(); i++) { auto &e = entries[i]; d += ":" + vf::esc(e.key) + "\\0"; if (e.has_value) d += "=" + vf::esc(e.value) + "\\0"; if (i < bare.size() && !bare[i].empty()) d += vf::esc(bare[i]) + "\\0"; }
     d += "\" probes=[";
     for (auto &p : probes) d += "\"" + vf::esc(p) + "\" ";
     d += "]";
@@ -58,7 +59,7 @@ Case vf_generate() {
   if (vf::chance(30)) {
     c.bare.assign(c.entries.size(), "");
     for (size_t i = 0; i < c.entries.size(); i++)
-      if (!c.entries[i].has_value && vf::chance(60)) c.bare[i] = std::string(1, "ab 01"[vf::pickn(5)]) + vf::strover(AL, 0, 4);
+      if (vf::chance(c.entries[i].has_value ? 25 : 60)) c.bare[i] = std::string(1, "ab 01"[vf::pickn(5)]) + vf::strover(AL, 0, 4);
   }
   int np = vf::pick<int>(0, 4);
   for (int i = 0; i < np; i++) {
@@ -80,7 +81,7 @@ static std::string block_of(const std::vector<Entry> &entries, const std::vector
     block += ":" + e.key;
     block.push_back('\0');
     if (e.has_value) { block += "=" + e.value; block.push_back('\0'); }
-    else if (bare && i < bare->size() && !(*bare)[i].empty()) { block += (*bare)[i]; block.push_back('\0'); }
+    if (bare && i < bare->size() && !(*bare)[i].empty()) { block += (*bare)[i]; block.push_back('\0'); }   // a further string that starts no entry (rSpecial's text, a value continued in a second string)
   }
   block.push_back('\0');  // terminator (the implicit NUL of the string literal the macros produce)
   return block;
@@ -130,10 +131,60 @@ static std::string run_block(const std::vector<Entry> &entries, const std::vecto
   }
   size_t len = meta.length();
   if (len != block.size()) return "length() = " + std::to_string(len) + " != block byte length " + std::to_string(block.size());
+  // a container made from the raw metadata pointer (the block still has its leading ':') reads the same entries
+  {
+    rtosc::Port::MetaContainer raw(at);
+    size_t k = 0;
+    for (auto it = raw.begin(); it != raw.end(); ++it, ++k) {
+      if (k >= c.entries.size()) return "a container built from the raw block pointer yields more than the " + std::to_string(c.entries.size()) + " entries written";
+      if (!it.title || c.entries[k].key != it.title) return "a container built from the raw block pointer: entry " + std::to_string(k) + " has title \"" + vf::esc(it.title ? it.title : "(null)") + "\", written \"" + vf::esc(c.entries[k].key) + "\"";
+      if (k > 64) return "iteration does not terminate";
+    }
+    if (k != c.entries.size()) return "a container built from the raw block pointer yields " + std::to_string(k) + " entries, " + std::to_string(c.entries.size()) + " were written";
+    for (auto &key : keys) {
+      bool present = false;
+      for (auto &e : c.entries) if (e.key == key) present = true;
+      if ((bool)raw.find(key.c_str()) != present) return "a container built from the raw block pointer: find(\"" + vf::esc(key) + "\") reports " + (present ? "absent" : "present");
+    }
+  }
+  return "";
+}
+
+// metadata written by the library's own macros: rOptions lists of every supported length (1..24 symbols) between two
+// other entries read back as "map <k>" = symbol k, in order (compile-time input: checked once per process)
+#define OPT_PORT(n, ...) {"o" #n "::i", rProp(parameter) rOptions(__VA_ARGS__) rDoc("d"), nullptr, nullptr}
+static const rtosc::Port OPTPORTS[] = {
+    OPT_PORT(1, s0), OPT_PORT(2, s0, s1), OPT_PORT(3, s0, s1, s2), OPT_PORT(4, s0, s1, s2, s3), OPT_PORT(8, s0, s1, s2, s3, s4, s5, s6, s7),
+    OPT_PORT(15, s0, s1, s2, s3, s4, s5, s6, s7, s8, s9, s10, s11, s12, s13, s14),
+    OPT_PORT(16, s0, s1, s2, s3, s4, s5, s6, s7, s8, s9, s10, s11, s12, s13, s14, s15),
+    OPT_PORT(17, s0, s1, s2, s3, s4, s5, s6, s7, s8, s9, s10, s11, s12, s13, s14, s15, s16),
+    OPT_PORT(20, s0, s1, s2, s3, s4, s5, s6, s7, s8, s9, s10, s11, s12, s13, s14, s15, s16, s17, s18, s19),
+    OPT_PORT(21, s0, s1, s2, s3, s4, s5, s6, s7, s8, s9, s10, s11, s12, s13, s14, s15, s16, s17, s18, s19, s20),
+    OPT_PORT(22, s0, s1, s2, s3, s4, s5, s6, s7, s8, s9, s10, s11, s12, s13, s14, s15, s16, s17, s18, s19, s20, s21),
+    OPT_PORT(23, s0, s1, s2, s3, s4, s5, s6, s7, s8, s9, s10, s11, s12, s13, s14, s15, s16, s17, s18, s19, s20, s21, s22),
+    OPT_PORT(24, s0, s1, s2, s3, s4, s5, s6, s7, s8, s9, s10, s11, s12, s13, s14, s15, s16, s17, s18, s19, s20, s21, s22, s23),
+};
+static std::string check_macro_blocks() {
+  for (auto &p : OPTPORTS) {
+    int n = atoi(p.name + 1);
+    auto meta = p.meta();
+    int maps = 0;
+    for (auto it = meta.begin(); it != meta.end(); ++it) {
+      if (!it.title || strncmp(it.title, "map ", 4)) continue;
+      std::string want = "s" + std::to_string(maps);
+      if (atoi(it.title + 4) != maps || !it.value || want != it.value) return "rOptions of " + std::to_string(n) + " symbols: entry " + std::to_string(maps) + " reads back as \"" + it.title + "\"=\"" + (it.value ? it.value : "(null)") + "\"";
+      maps++;
+    }
+    if (maps != n) return "rOptions of " + std::to_string(n) + " symbols reads back as " + std::to_string(maps) + " map entries";
+    std::string last = "map " + std::to_string(n - 1);
+    if (!meta[last.c_str()] || std::string(meta[last.c_str()]) != "s" + std::to_string(n - 1)) return "rOptions of " + std::to_string(n) + " symbols: lookup of \"" + last + "\" fails";
+    if (!meta.find("documentation") || !meta["documentation"] || strcmp(meta["documentation"], "d")) return "rOptions of " + std::to_string(n) + " symbols: the entry behind the list is lost";
+  }
   return "";
 }
 
 std::string vf_run(const Case &c, vf::Ctx &ctx) {
+  { static bool done = false; if (!done) { std::string m = check_macro_blocks(); if (!m.empty()) return m; done = true; ctx.count("macro_blocks_checked"); } }
   std::string r = run_block(c.entries, c.probes, nullptr, &c.bare);
   if (!r.empty()) return r;
   for (auto &b : c.bare) if (!b.empty()) { ctx.count("class.key_followed_by_bare_string"); break; }
